@@ -60,6 +60,8 @@ type c11Peer struct {
 	hold    chan struct{} // if set: a response is held back until the channel is closed
 	surplus int           // cookies a response carries beyond those asked for
 	perKE   int           // cookies the key-exchange server issues per exchange (0: eight)
+	replay  bool          // the response to the previous request arrives once more, in front of the response to this one
+	last    []byte        // the last response sent
 }
 
 func (p *c11Peer) handle(s *peer.NTPServer, dg []byte, from netip.AddrPort, rx time.Time) {
@@ -180,7 +182,11 @@ func (p *c11Peer) handle(s *peer.NTPServer, dg []byte, from netip.AddrPort, rx t
 		<-h
 		p.mu.Lock()
 	}
+	if p.replay && p.last != nil {
+		s.Send(from, p.last) // authentic under the session's key, but it answers another request
+	}
 	s.Send(from, resp)
+	p.last = resp
 	p.level += kept
 	rq.Answered = true
 }
@@ -334,11 +340,29 @@ func c11ClientLeg(r *ev.Run) {
 		p.mu.Lock()
 		p.nreq, p.reqs, p.problem = 0, nil, nil
 		p.drop = func(n int) bool { return n < len(pattern) && pattern[n] }
+		p.replay, p.last = strings.HasPrefix(id, "y"), nil
 		p.surplus = 0
 		if strings.HasPrefix(id, "s") {
 			p.surplus = []int{1, 3, 9}[len(pattern)%3]
 		}
 		p.mu.Unlock()
+		reportProblems := func(outcome []string) {
+			p.mu.Lock()
+			defer p.mu.Unlock()
+			w := map[string]any{"loss_pattern": pattern, "outcomes": outcome, "requests": p.reqs}
+			seenSig := map[string]bool{}
+			for _, pr := range p.problem {
+				key := pr
+				if i := bytes.IndexAny([]byte(pr), "0123456789"); i > 0 {
+					key = pr[:i]
+				}
+				if !seenSig[key] {
+					seenSig[key] = true
+					w["problem"] = pr
+					r.Violation("ip-client(NTS)|wrong-request:"+firstWord(pr), id, w)
+				}
+			}
+		}
 		var outcome []string
 		minLevel := 8
 		for i := range pattern {
@@ -379,6 +403,14 @@ func c11ClientLeg(r *ev.Run) {
 				// a delivered exchange that still ran into its (generous) deadline: the machine is busy;
 				// counted, and too many of them make the run inconclusive
 				outcome = append(outcome, "timeout")
+				p.mu.Lock()
+				np := len(p.problem)
+				p.mu.Unlock()
+				if np > 0 {
+					// the scripted server refused to answer because of what the request carried: not a busy machine
+					reportProblems(outcome)
+					return
+				}
 				slow++
 				r.Class("pattern-abandoned(delivered exchange ran into its deadline)")
 				return // the client did not store that response's cookies: the pool model no longer applies
@@ -395,21 +427,9 @@ func c11ClientLeg(r *ev.Run) {
 				outcome = append(outcome, "ok")
 			}
 		}
+		reportProblems(outcome)
 		p.mu.Lock()
 		defer p.mu.Unlock()
-		w := map[string]any{"loss_pattern": pattern, "outcomes": outcome, "requests": p.reqs}
-		seenSig := map[string]bool{}
-		for _, pr := range p.problem {
-			key := pr
-			if i := bytes.IndexAny([]byte(pr), "0123456789"); i > 0 {
-				key = pr[:i]
-			}
-			if !seenSig[key] {
-				seenSig[key] = true
-				w["problem"] = pr
-				r.Violation("ip-client(NTS)|wrong-request:"+firstWord(pr), id, w)
-			}
-		}
 		for _, rq := range p.reqs {
 			r.Class(fmt.Sprintf("request-at-pool-level-%d", rq.LevelBefore))
 			if rq.Answered && rq.LevelBefore < 8 {
@@ -452,6 +472,15 @@ func c11ClientLeg(r *ev.Run) {
 		pat[len(pat)-1] = false
 		run(fmt.Sprintf("s%d", k), pat)
 		r.Class("responses-with-surplus-cookies")
+	}
+	for k := 0; k < r.Pick(6, 100); k++ { // the previous response duplicated in front of every response
+		pat := make([]bool, 14+k%9)
+		for i := range pat {
+			pat[i] = rng.IntN(6) == 0
+		}
+		pat[len(pat)-1] = false
+		run(fmt.Sprintf("y%d", k), pat)
+		r.Class("previous-response-duplicated-in-front-of-each-response")
 	}
 	for k := 0; k < r.Pick(20, 600); k++ {
 		pat := make([]bool, 12+rng.IntN(30))
